@@ -71,6 +71,7 @@ fn main() {
     "c03" => props::c03::run(&cfg),
     "c19" => props::c19::run(&cfg),
     "c06" => props::c06::run(&cfg),
+    "c13" => props::c13::run(&cfg),
     _ => {
       eprintln!("unknown property {}", prop);
       std::process::exit(2);
